@@ -366,7 +366,7 @@ def energies_for_calculators(E):
     """Fermi levels inside the bands and frequencies at actual interband transition energies of the grid, so that no
     quantity vanishes identically for trivial reasons (empty / full bands, no transitions)"""
     Es = np.sort(E.reshape(-1))
-    Ef = np.quantile(Es, [0.25, 0.5, 0.8])
+    Ef = np.linspace(np.quantile(Es, 0.25), np.quantile(Es, 0.8), 3)          # uniform (Fermi-surface terms difference it)
     trans = np.array([abs(E[:, m] - E[:, n]) for n in range(E.shape[1]) for m in range(n + 1, E.shape[1])]).reshape(-1)
     trans = trans[trans > 0.05]
     om = np.quantile(trans, [0.3, 0.75]) if trans.size else np.array([0.3, 1.1])
@@ -503,7 +503,14 @@ def oracle_physical(ctx, scale):
         pure_tr = any(tr and np.abs(R - np.eye(3)).max() < 1e-9 for R, tr in G)
         kind = "gray(TR)" if pure_tr else ("magnetic" if has_tr else "noTR")
         Ef, om = energies_for_calculators(Egrid)
+        state = rng.getstate()
         make, names_c, tnames = real_calculators(rng, ctx.tier == "thorough" and it % 3 == 0, Ef, om)
+        # the companion only supplies the natural order of magnitude of every quantity: wide energy grids, so that
+        # Fermi-surface and resonant terms are sampled somewhere
+        rng.setstate(state)
+        make_wide, _, _ = real_calculators(rng, ctx.tier == "thorough" and it % 3 == 0,
+                                           np.linspace(Egrid.min(), Egrid.max(), 15),
+                                           np.linspace(0.05, max(0.3, Egrid.max() - Egrid.min()), 8))
         case.update(Efermi=Ef, omega=om)
         case.update(NKdiv=div, NKFFT=fft, num_wann=sys_sym.num_wann, group_order=len(G), kind=kind,
                     calculators=names_c, tabulators=tnames)
@@ -513,7 +520,7 @@ def oracle_physical(ctx, scale):
         ctx.count(f"oracle.physical.order={len(G)}")
         ctx.count("oracle.physical.grid=" + ("anisotropic" if len(set(fft)) > 1 or len(set(div)) > 1 else "isotropic"))
         with ctx.attempt("run() on a symmetric model", case, kf=kf):
-            scales = companion_scales(sys0, div, fft, make)
+            scales = companion_scales(sys0, div, fft, make_wide)
             r1, r0, nirr = run_pair(sys_sym, div, fft, make)
             ntot = int(np.prod(div))
             ctx.case(signature=("phys", famname, tuple(names), tuple(trs), div, fft, tuple(names_c)),
